@@ -79,10 +79,14 @@ type Unit struct {
 	modCache       *modCacheT
 	assertCallSeen map[int]bool
 	sentinels      map[string]Term
+	slices         map[string]sliceInfo
 }
 
+// sliceInfo: syntactically known header of a slice value created on this run.
+type sliceInfo struct{ ptr, off, len, cap Term }
+
 func NewUnit(p *Prog, name string, fn *ssa.Function, c *Contract) *Unit {
-	u := &Unit{P: p, Name: name, Fn: fn, C: c, declS: map[string]bool{}, sDecl: map[string]bool{}, lits: map[string]Term{}, obs: map[string]*Oblig{}, ordCnt: map[string]int{}, usedContracts: map[string]bool{}, abstractions: map[string]int{}, assumptions: map[string]bool{}, siteOrd: map[ssa.Instruction]map[string]int{}, cacheRes: map[string]string{}, covers: map[string]bool{}}
+	u := &Unit{P: p, Name: name, Fn: fn, C: c, declS: map[string]bool{}, sDecl: map[string]bool{}, lits: map[string]Term{}, obs: map[string]*Oblig{}, ordCnt: map[string]int{}, usedContracts: map[string]bool{}, abstractions: map[string]int{}, assumptions: map[string]bool{}, siteOrd: map[ssa.Instruction]map[string]int{}, cacheRes: map[string]string{}, covers: map[string]bool{}, slices: map[string]sliceInfo{}}
 	if fn != nil && fn.Pkg != nil {
 		u.Pkg = fn.Pkg.Pkg
 	} else if fn != nil && fn.Parent() != nil {
@@ -486,4 +490,25 @@ func debugf(f string, a ...interface{}) {
 	if os.Getenv("GOVC_DEBUG") != "" {
 		fmt.Fprintf(os.Stderr, f+"\n", a...)
 	}
+}
+
+func (u *Unit) sptrOf(s Term) Term {
+	if si, ok := u.slices[s.String()]; ok {
+		return si.ptr
+	}
+	return App("sptr", SV, s)
+}
+
+func (u *Unit) soffOf(s Term) Term {
+	if si, ok := u.slices[s.String()]; ok {
+		return si.off
+	}
+	return App("soff", SInt, s)
+}
+
+func (u *Unit) vlenOf(s Term) Term {
+	if si, ok := u.slices[s.String()]; ok && !si.len.IsZeroTerm() {
+		return si.len
+	}
+	return App("vlen", SInt, s)
 }
